@@ -6,8 +6,15 @@
    code has: every access to the counter (Add / Load / Store) is its own step,
    and so is every lock acquisition; work on a segment's table happens in the
    step that follows the acquisition (nobody else can see it before the unlock).
-   [sync.RWMutex] and [atomic.Int64] are taken as sequentially consistent;
-   readers (Get/Has/ForEach) change nothing and are left out.
+   [sync.RWMutex] and [atomic.Int64] are taken as sequentially consistent.
+   Readers: Get = RLock; read; RUnlock is one step (enabled while no writer owns
+   the segment); ForEach takes the segments one after the other, one step per
+   segment (RLock; yield the segment's entries; RUnlock) — not atomic as a whole.
+   A pending writer blocking new readers (Go's writer preference) only removes
+   schedules, so it is not modelled.  What readers saw goes into the ghost log
+   [c_obs].  [c_exh] is a ghost counter as well: it counts the SetWithCap calls
+   that returned because the spill loop had visited every segment although they
+   had evicted nothing (a fruitless full-ring scan) — see occupancy_bound.
 
    SetWithCap (Go lines in segment_uint64_map.go):
      SwcLock : rwlock.Lock(); oldSize; data.Put             (own segment)
@@ -17,6 +24,8 @@
      SpLoad  : loop condition; if count.Load() <= capacity return
      SpEvict : next.Lock(); d = EvictKeysAt(offset, deficit, key); next.Unlock()
      SpSub   : if d > 0 { count.Add(-d); deficit -= d }; i++
+   Get:      RdGet   : RLock(); Get; RUnlock()
+   ForEach:  FeSeg i : RLock(i); yield all entries of segment i; RUnlock(i)
    Set / PutIfNotExists / Del / CompareAndSwap / CompareAndDelete:
      OpLock  : Lock(); the table operation
      OpAdd   : count.Add(delta); Unlock()
@@ -33,7 +42,9 @@ Inductive call :=
 | CDel (k : N)
 | CCas (k old v : N)
 | CCad (k old : N)
-| CClear.
+| CClear
+| CGet (k : N)
+| CAll.
 
 Inductive pc :=
 | Idle
@@ -47,12 +58,18 @@ Inductive pc :=
 | OpLock (c : call)
 | OpAdd (sg : nat) (delta : Z)
 | ClrSeg (i : nat)
-| ClrSub (i : nat) (d : Z).
+| ClrSub (i : nat) (d : Z)
+| RdGet (k : N)
+| FeSeg (i : nat) (acc : list (N * N)).
+
+Inductive obs := ObGet (k : N) (r : option N) | ObAll (l : list (N * N)).
 
 Record cstate := mk_cstate {
   c_map : segmap;
   c_locks : list (option nat);          (* owner of each segment's write lock *)
-  c_thr : list (pc * list call) }.
+  c_thr : list (pc * list call);
+  c_exh : Z;                            (* ghost: fruitless full-ring scans so far *)
+  c_obs : list (nat * obs) }.           (* ghost: what readers saw (thread, observation), latest first *)
 
 Fixpoint lupd {A} (i : nat) (x : A) (l : list A) : list A :=
   match l with
@@ -62,13 +79,15 @@ Fixpoint lupd {A} (i : nat) (x : A) (l : list A) : list A :=
 
 Definition call_key (c : call) : N :=
   match c with
-  | CSwc k _ _ | CSet k _ | CPia k _ | CDel k | CCas k _ _ | CCad k _ => k
-  | CClear => 0%N
+  | CSwc k _ _ | CSet k _ | CPia k _ | CDel k | CCas k _ _ | CCad k _ | CGet k => k
+  | CClear | CAll => 0%N
   end.
 Definition pc0 (c : call) : pc :=
   match c with
   | CSwc k v cap => SwcLock k v cap
   | CClear => ClrSeg 0
+  | CGet k => RdGet k
+  | CAll => FeSeg 0 []
   | _ => OpLock c
   end.
 
@@ -100,7 +119,9 @@ Section Step.
     end.
 
   Definition with_pc (s : cstate) (tid : nat) (m : segmap) (locks : list (option nat)) (p : pc) (rest : list call) : cstate :=
-    mk_cstate m locks (lupd tid (p, rest) (c_thr s)).
+    mk_cstate m locks (lupd tid (p, rest) (c_thr s)) (c_exh s) (c_obs s).
+  Definition with_ghost (s : cstate) (exh : Z) (ob : list (nat * obs)) : cstate :=
+    mk_cstate (c_map s) (c_locks s) (c_thr s) exh ob.
 
   (* one atomic step of thread [tid]; None = cannot move now (blocked on a lock, or nothing left to do) *)
   Definition step (s : cstate) (tid : nat) : option cstate :=
@@ -137,10 +158,11 @@ Section Step.
         Some (with_pc s tid (mk_segmap (sm_segs m) (if (0 <? d)%Z then cnt - d else cnt)%Z) (lupd i None (c_locks s))
                       (if (deficit <=? 0)%Z then Idle else SpLoad k cap 1 deficit) rest)
     | SpLoad k cap i deficit =>
-        Some (with_pc s tid m (c_locks s)
-                      (if (i <? n) && (0 <? deficit)%Z
-                       then (if (cnt <=? cap)%Z then Idle else SpEvict k cap i deficit)
-                       else Idle) rest)
+        if (i <? n) && (0 <? deficit)%Z
+        then Some (with_pc s tid m (c_locks s) (if (cnt <=? cap)%Z then Idle else SpEvict k cap i deficit) rest)
+        else (* loop over; with deficit > 0 it ran out of segments: ghost count *)
+          Some (with_ghost (with_pc s tid m (c_locks s) Idle rest)
+                           (c_exh s + Z.max (deficit - 1) 0)%Z (c_obs s))
     | SpEvict k cap i deficit =>
         let j := Nat.modulo (sidx n k + i) n in
         if lock_free s j then
@@ -168,6 +190,18 @@ Section Step.
         else Some (with_pc s tid m (c_locks s) Idle rest)
     | ClrSub i d =>
         Some (with_pc s tid (mk_segmap (sm_segs m) (cnt - d)%Z) (lupd i None (c_locks s)) (ClrSeg (S i)) rest)
+    | RdGet k =>
+        let i := sidx n k in
+        if lock_free s i
+        then Some (with_ghost (with_pc s tid m (c_locks s) Idle rest) (c_exh s)
+                              ((tid, ObGet k (tget mix (seg m i) k)) :: c_obs s))
+        else None
+    | FeSeg i acc =>
+        if i <? n then
+          if lock_free s i
+          then Some (with_pc s tid m (c_locks s) (FeSeg (S i) (acc ++ tall (seg m i))) rest)
+          else None
+        else Some (with_ghost (with_pc s tid m (c_locks s) Idle rest) (c_exh s) ((tid, ObAll acc) :: c_obs s))
     end.
 
   (* a schedule is a list of thread ids; a thread that cannot move is skipped *)
@@ -178,7 +212,7 @@ Section Step.
     end.
 
   Definition init (m : segmap) (progs : list (list call)) : cstate :=
-    mk_cstate m (repeat None (nsegs m)) (map (fun p => (Idle, p)) progs).
+    mk_cstate m (repeat None (nsegs m)) (map (fun p => (Idle, p)) progs) 0%Z [].
 
   (* observables *)
   Fixpoint sum_sizes (l : list table) : Z :=
